@@ -801,6 +801,25 @@ pub fn random_project(rng: &mut Rng, nfiles: usize, adversarial: bool, externs: 
                 let shape = if adversarial && rng.chance(1, 3) { *rng.pick(&["tuple", "struct"]) } else { "unit" };
                 json!({"name": format!("{}{}", rng.pick(&["Active", "Pending", "Done", "InProgress", "Ok"]), k), "attrs": va, "shape": shape})
             }).collect();
+            let mut variants = variants;
+            if rng.chance(1, 4) {
+                // wire names that differ in letter case only, by identifier or by rename; rename values with a comma
+                match rng.below(3) {
+                    0 => {
+                        let (a, b) = *rng.pick(&[("Kb", "KB"), ("Mb", "MB"), ("Id", "ID")]);
+                        variants.push(json!({"name": a, "attrs": [], "shape": "unit"}));
+                        variants.push(json!({"name": b, "attrs": [], "shape": "unit"}));
+                    }
+                    1 => {
+                        variants.push(json!({"name": "MegaLower", "attrs": [attr("serde(rename = \"mb\")")], "shape": "unit"}));
+                        variants.push(json!({"name": "MegaUpper", "attrs": [attr("serde(rename = \"MB\")")], "shape": "unit"}));
+                    }
+                    _ => {
+                        variants.push(json!({"name": "NameAscending", "attrs": [attr("serde(rename = \"name,asc\")")], "shape": "unit"}));
+                        variants.push(json!({"name": "NameDescending", "attrs": [attr("serde(rename = \"name, desc\")")], "shape": "unit"}));
+                    }
+                }
+            }
             items_per_file[f].push(json!({"k": "enum", "name": name, "attrs": attrs, "variants": variants}));
         } else {
             let shape = if rng.chance(1, 10) { "unit" } else if adversarial && rng.chance(1, 12) { "tuple" } else { "named" };
